@@ -182,7 +182,15 @@ class QueueSemantivaOrchestrator:
 
                 # If the user requested a Future, resolve it now
                 if jid in self.pending_futures:
-                    self.pending_futures[jid].set_result((msg.data, msg.context))
+                    if (msg.metadata or {}).get("status") == "failed":
+                        # The worker reported a failure: fail the caller's Future
+                        self.pending_futures[jid].set_exception(
+                            RuntimeError(
+                                f"Job {jid} failed: {msg.metadata.get('error')}"
+                            )
+                        )
+                    else:
+                        self.pending_futures[jid].set_result((msg.data, msg.context))
                     del self.pending_futures[jid]
 
                 # Acknowledge receipt if transport supports it
